@@ -24,7 +24,13 @@ MANIFEST = {
                   "cache needs raw_ok (C09_stsc_cache_wrap_refuted just above). Every query as a state transformer on the File / table-box "
                   "state (composite ones thread the state through every call) returns the state it was given: C09_queries_pure, "
                   "C09_copy_pure, C09_composite_answers (same answers as the functions of the query theorems), "
-                  "C09_queries_order_independent (any sequence of queries: each answer is the answer on the initial state). The model is tied to /repo on every run: the real ctts and "
+                  "C09_queries_order_independent (any sequence of queries: each answer is the answer on the initial state). "
+                  "SttsBox.GetTimeCode (decode time as a time.Duration in a given timescale; repaired text 423d4e5, finding C09-F7): for ALL "
+                  "consistent tables, every sample number and every non-zero uint32 timescale it returns floor(10^9 * decode time / "
+                  "timescale) ns whenever that value is an int64 (C09_time_code; C09_time_code_exact on the bare columns with no more "
+                  "hypotheses than C09_decode_time_exact; int64 wrap-around, Go's truncated division and the divide-by-zero panic are in "
+                  "the model); the pinned uint32 accumulator is refuted from 2^32 units on (C09_time_code_pinned_refuted, witness "
+                  "reproduced on the code). The model is tied to /repo on every run: the real ctts and "
                   "stsc boxes are built by a random history (empty box or DECODED PREFIX + the remaining rows split into 1-4 builder calls, "
                   "empty calls, SetSingleSampleDescriptionID over scrambled ids, refused calls in the malformed stream), the plain boxes by "
                   "struct literal / decoder / CreateSdtpBox; cache fields are compared after every call and EVERY query is run on EVERY "
@@ -78,6 +84,8 @@ def run(ctx):
         "spec: coq/c09/C09Spec.v naive run-length expansion (durs, starts, ctos, sizes, chunk_counts, sample_chunks) and `consistent`",
         "search oracle: harness/c09/tbl Expand (independent per-sample expansion in Go); built stsc box must Encode to the table the "
         "accepted calls describe; fmt %+v snapshot of all table boxes / sha256 + fields of the mdat unchanged by queries and CopySampleData",
+        "model: coq/c09/C09TimeCodeModel.v is a hand transcription of SttsBox.GetTimeCode (mp4/stts.go) incl. int64 conversions; the "
+        "search compares it with math/big floor(10^9*start/timescale) where that is an int64",
         "model: coq/c09/C09PureModel.v states which Go methods write no receiver field (read in the code, checked by the snapshot only)",
     ]
     ctx.assumptions += [
@@ -112,7 +120,10 @@ def run(ctx):
                         "decoder (sdtp also CreateSdtpBox); 3 fixed boundary cases on the real code: 2^32-1 samples in one stts run "
                         "(sample number wraps to 0), counts summing to 2^33-2 (decode time of sample 2^32-1 exact), FirstSampleNr wrapping to 1; "
                         "35% of the stsc histories contain 1-2 calls with description id 0 "
-                        "(AddEntry / SetSingleSampleDescriptionID, any position); 2 fixed cases: the histories of C09Theorems.v",
+                        "(AddEntry / SetSingleSampleDescriptionID, any position); 2 fixed cases: the histories of C09Theorems.v; "
+                        "GetTimeCode: one query per sample number (0..N+2, 2^31, 2^32-1 in the out-of-range stream) with timescale "
+                        "1 / 1000 / 90000 / 10^7 / 2^32-1 / small / any uint32 (0 only out of range), 2 fixed cases with decode times "
+                        ">= 2^32 units and the last uint32 sample number of a 2^33-2-sample stts",
         "builder_calls": sum(l.count(" bc") + l.count(" bs") for l in lines),
     }
     ctx.cov["samples"] += [l[:300] for l in lines[:2]] + [l[:300] for l in lines[-2:]]
